@@ -110,6 +110,69 @@ func C02(c *fw.Ctx) {
 			}
 		}
 	}
+	// rows and columns: every non-failing result of one operator with one fixed operand, all in a
+	// single run, in both orders of the other operand -- a result computed earlier in a run must not
+	// change a later one; likewise every operator on one pair in a single run
+	okExpr := func(e *model.N) bool {
+		r := (&model.Machine{}).Run(parenAll(mkProg(e)))
+		return r.Err == nil && r.Unspec == "" && !r.Diverged
+	}
+	for _, op := range model.BinOps {
+		for xi, x := range ops {
+			for side := 0; side < 2; side++ {
+				for order := 0; order < 2; order++ {
+					if !c.Mine() {
+						continue
+					}
+					prog := append([]*model.N{}, c02Prelude()...)
+					n := 0
+					for k := range ops {
+						y := ops[k]
+						if order == 1 {
+							y = ops[len(ops)-1-k]
+						}
+						mk := func() *model.N {
+							if side == 0 {
+								return model.Bin(op, x.Mk(), y.Mk())
+							}
+							return model.Bin(op, y.Mk(), x.Mk())
+						}
+						if okExpr(mk()) {
+							prog = append(prog, model.Print(mk()))
+							n++
+						}
+					}
+					if n >= 2 {
+						judge(c, prog, judgeOpts{SigPrefix: fmt.Sprintf("row|%s|side%d", op, side), NoKind: true, NoOneLine: xi%4 != 0})
+					}
+				}
+			}
+		}
+	}
+	for _, x := range ops {
+		for _, y := range ops {
+			if !c.Mine() {
+				continue
+			}
+			for order := 0; order < 2; order++ {
+				prog := append([]*model.N{}, c02Prelude()...)
+				n := 0
+				for k := range model.BinOps {
+					op := model.BinOps[k]
+					if order == 1 {
+						op = model.BinOps[len(model.BinOps)-1-k]
+					}
+					if okExpr(model.Bin(op, x.Mk(), y.Mk())) {
+						prog = append(prog, model.Print(model.Bin(op, x.Mk(), y.Mk())))
+						n++
+					}
+				}
+				if n >= 2 {
+					judge(c, prog, judgeOpts{SigPrefix: "all-operators|" + kindLabel(x.Name) + "|" + kindLabel(y.Name), NoKind: true, NoOneLine: true})
+				}
+			}
+		}
+	}
 	// equality laws on bound values (identity preserved through variables)
 	for _, x := range ops {
 		for _, y := range ops {
